@@ -86,6 +86,32 @@ def file_events(path: str, tail_head: int, tail_last: int, zone_mod: int, phase:
                     if not iv.has_end:
                         break
                     cur = iv.end
+                # the served zone answers every instant inside a stored period with that period, whatever was asked before: the periods
+                # just walked are asked again, backwards, at their first instant, a middle one and their last
+                bad = 0
+                asked = 0
+                try:
+                    cur = Instant.min_value
+                    walked = []
+                    while len(walked) < 400:
+                        iv = z.get_zone_interval(cur)
+                        if (iv._raw_start >= tail_start and iv.has_start) or not iv.has_end:
+                            break
+                        walked.append(iv)
+                        cur = iv.end
+                    for iv in reversed(walked):
+                        if not iv.has_start:
+                            continue
+                        half = Duration.from_nanoseconds((iv.end - iv.start).to_nanoseconds() // 2)
+                        for t in (iv.end - eps, iv.start + half, iv.start):
+                            got = z.get_zone_interval(t)
+                            asked += 1
+                            if not (got._raw_start == iv._raw_start and got._raw_end == iv._raw_end and got.wall_offset == iv.wall_offset
+                                    and got.name == iv.name and z.get_utc_offset(t) == iv.wall_offset):
+                                bad += 1
+                except Exception:  # noqa: BLE001
+                    bad += 1
+                ev["inside_asked"], ev["inside_bad"] = asked, bad
                 if ev["has_tail"]:
                     full = zone_mod <= 1 or (nz % zone_mod == phase % zone_mod)
                     cur = tail_start
